@@ -40,6 +40,10 @@ type poolSpec struct {
 	Inst     int
 	Shots    int // > 0: shared `once` schedule with exactly that many tokens; 0: plenty, run ends by end of ammo (passes: 1)
 	Result   map[string]interface{}
+	Clients         int    // shared-client.client-number (0: 2)
+	ReflectPort     int    // reflect_port (0: reflection on the target itself)
+	Timeout         string // gun timeout ("" = 120s)
+	ContinueOnError bool   // grpc/json continueonerror
 	// YAMLShape: nested maps as yaml.v2 produces them (map[interface{}]interface{}, the acceptance
 	// tests' path) instead of viper's map[string]interface{} (the CLI's path)
 	YAMLShape bool
@@ -67,11 +71,24 @@ func (ps poolSpec) configMap() map[string]interface{} {
 	gun := map[string]interface{}{"type": ps.Kind, "target": ps.Target}
 	if ps.Kind == "grpc" || ps.Kind == "grpc/scenario" {
 		gun["timeout"] = "120s" // a loaded machine must not turn a slow call into a deadline
+		if ps.Timeout != "" {
+			gun["timeout"] = ps.Timeout
+		}
+		if ps.ReflectPort != 0 {
+			gun["reflect_port"] = ps.ReflectPort
+		}
 	}
 	if ps.Shared {
-		gun["shared-client"] = map[string]interface{}{"enabled": true, "client-number": 2}
+		n := ps.Clients
+		if n == 0 {
+			n = 2
+		}
+		gun["shared-client"] = map[string]interface{}{"enabled": true, "client-number": n}
 	}
 	ammo := map[string]interface{}{"type": ps.AmmoType, "file": ps.AmmoFile}
+	if ps.ContinueOnError {
+		ammo["continueonerror"] = true
+	}
 	times := ps.Shots
 	if ps.Shots == 0 {
 		ammo["passes"] = 1
